@@ -18,11 +18,12 @@ func init() {
 			"keccak256 from golang.org/x/crypto is correct",
 			"responses are offered the way you/downloader/triesync.go does: the hash is computed from the delivered bytes (trie.Sync.Process trusts the caller's hash by design)",
 			"the model node construction (model.MPTBuild / MPTNodeRefs) is validated at the start of every run against the published doe/dog vector and against the node set the production trie writer stores for 30 generated contents",
-			"a sync that never reaches Pending()==0 under an eventually honest responder makes the case inconclusive, not violated (the property does not state liveness)",
+			"a sync that never reaches Pending()==0 under an eventually honest responder (or a production sync that hangs until the watchdog) makes the case inconclusive, not violated (the property does not state liveness); any such case makes the whole run INCONCLUSIVE through the children_without_stuck_sync minimum",
 			"crash model of driver 1: any prefix of the sequence of Puts issued by Sync.Commit is a possible on-disk state (the production caller uses an atomic batch per Commit, so its crash points are the batch boundaries)",
 			"the production driver runs on real goroutines and timers: its schedules are not reproducible bit by bit, its verdicts do not depend on them",
 		},
 		Require: map[string]int64{
+			"children_without_stuck_sync":  16, // every child of the run (quick and thorough: 16) judged all its syncs
 			"sessions_completed":           2000,
 			"sessions_interrupted":         800,
 			"sessions_commit_aborted":      100,
